@@ -509,7 +509,7 @@ _unsupported_cxx_style_comment = r"\/\/"
 # `\1`+`23`, `\12`+`3`, and `\123`.
 
 _simple_escape = r"""([a-wyzA-Z._~!=&\^\-\\?'"]|x(?![0-9a-fA-F]))"""
-_decimal_escape = r"""(\d+)(?!\d)"""
+_decimal_escape = r"""([0-9]+)(?![0-9])"""
 _hex_escape = r"""(x[0-9a-fA-F]+)(?![0-9a-fA-F])"""
 _bad_escape = r"""([\\][^a-zA-Z._~^!=&\^\-\\?'"x0-9])"""
 
